@@ -10,12 +10,12 @@ def run(tier, seed):
     c = rep.coverage
     rep.assumptions += [
         'the clock is a SystemClock subclass overriding the virtual clockMillis(); only the low 16 bits of the counter are used by the class, 64-bit counter values straddling 2^16 and 2^32 are injected',
-        'P1 enumerates the one-step transition relation (mPrevMillis x distance to next poll); with the invariant "mPrevMillis = m0 + 1000k and mEpochSeconds = T + k (mod 2^16 / exact)" checked on every transition, induction closes all schedules with gaps <= 64,536 ms; thorough tier covers all 65,536 x 65,536 pairs, quick every 17th phase (seed-rotated) + 10 boundary phases',
+        'P1 enumerates the one-step transition relation (mPrevMillis x distance to next poll); with the invariant "mPrevMillis = m0 + 1000k and mEpochSeconds = T + k (mod 2^16 / exact)" checked on every transition, induction closes all schedules with gaps <= 64,536 ms; both tiers cover all 65,536 x 65,536 (phase, distance) pairs',
         'private fields read through the friend name SystemClockLoopTest declared by SystemClock.h',
         'gaps above 64,536 ms are outside the statement',
     ]
     tr = c.get('p1_transitions', 0) + c.get('p2_polls', 0) + c.get('p3_transitions', 0)
-    return rep.finish(exhaustive=(tier == 'thorough'), extra={
+    return rep.finish(exhaustive=True, extra={
         'states': c.get('p1_phases', 0) * 1000 + c.get('p3_states', 0),
         'transitions': tr, 'traces_validated_against_impl': c.get('p1_transitions', 0) + c.get('p2_schedules', 0) + c.get('p3_executions', 0),
         'rule': 'P1: every (phase, distance) pair executed on a fresh clock; P2: all gap sequences of length 5 (6 thorough) over a 12-value gap alphabet from 7 counter start values; P3: BFS with canonical-state deduplication over {setNow(T1), setNow(T1-5), setNow(T1+5), setNow(T1+1), setNow(sentinel), advance+getNow x 7 gaps, advance without reading x 2, getLastSyncTime} to depth 5 (6 thorough) against a reference model',
